@@ -37,6 +37,14 @@ def jobs(tier, seed):
                     f'parse_headers ({variant}), capacity 2, ' + 'every {n}-byte buffer', 8, **kw)
         J += deepen(P, G, f'chunk-{variant}', lambda n, variant=variant: sc('chunk', n, variant=variant), range(T(tier, 4, 2), T(tier, 4, 6) + 1), bud,
                     f'parse_chunk_size ({variant}), ' + 'every {n}-byte buffer', 4, **kw)
+    # long digit runs of chunk sizes (the only multiplication in the crate): 14..17 digits with symbolic digits at either end
+    HEX = [b for b in b'0123456789abcdefABCDEF']
+    for nd in (15, 16, 17, 18):
+        for variant in ('swar-rel', 'swar-dbg'):
+            for nm, pre, suf in (('head', b'', b'f' * (nd - 1) + b'\r\n'), ('tail', b'f' * (nd - 1), b'\r\n'), ('zeros', b'0' * (nd - 1), b'\r\n'), ('one', b'1' + b'0' * (nd - 2), b'\r\n')):
+                jb = product_job(P, f'chunk-digits{nd}-{nm}-{variant}', G, sc('chunk', 1, prefix=pre, suffix=suf, variant=variant, fixed={0: HEX}), bud,
+                                 f'parse_chunk_size ({variant}): {nd} hex digits, one of them symbolic ({nm})', family='chunk-digits', mandatory=True, **kw)
+                jb.small = True; J.append(jb)
     for variant in ('x86-rt', 'x86-rt-dbg', 'nostd'):
         J += deepen(P, G, f'req-{variant}', lambda n, variant=variant: sc('req', n, api='cfg', fl=flags(multi_sp_req='sym'), cap=1, variant=variant), range(T(tier, 6, 5), T(tier, 6, 8) + 1), bud,
                     f'Request ({variant}), ' + 'every {n}-byte buffer', 5, **kw)
